@@ -140,14 +140,18 @@ type disconnectHandler struct {
 	timer          *time.Timer
 	mu             sync.Mutex
 	disconnectedAt time.Time
+	gracePeriod    time.Duration // grace period of the armed timer
 }
 
 func (d *disconnectHandler) handleDisconnect() {
 	d.mu.Lock()
 	defer d.mu.Unlock()
 
-	// Only handle if we're the leader
-	if !d.election.isLeader.Load() {
+	// Only handle if we're the leader - or if an earlier notification armed a
+	// timer that is still pending: the grace period counts from the latest
+	// disconnect notification, also when leadership was lost and regained in
+	// between.
+	if !d.election.isLeader.Load() && d.timer == nil {
 		return
 	}
 
@@ -178,6 +182,7 @@ func (d *disconnectHandler) handleDisconnect() {
 
 	// Record disconnect time
 	d.disconnectedAt = time.Now()
+	d.gracePeriod = gracePeriod
 
 	// Start grace period timer
 	d.timer = time.AfterFunc(gracePeriod, func() {
@@ -192,10 +197,21 @@ func (d *disconnectHandler) handleGracePeriodExpired() {
 	// Stop and the reconnect handler take the two mutexes in the opposite order.
 	d.mu.Lock()
 	disconnectedAt := d.disconnectedAt
+	gracePeriod := d.gracePeriod
 	d.mu.Unlock()
 
+	// A later disconnect notification re-arms the timer. If this expiry belongs
+	// to a timer that was replaced after it had already fired (Timer.Stop came
+	// too late), the grace period counted from the latest notification has not
+	// elapsed yet and the newer timer will come.
+	if time.Since(disconnectedAt) < gracePeriod {
+		return
+	}
+
 	if d.election.connectionMonitor != nil {
-		if d.election.connectionMonitor.Status() != ConnectionStatusDisconnected {
+		// Only a (re)established connection cancels the demotion; a connection
+		// that was closed for good is as lost as a disconnected one.
+		if s := d.election.connectionMonitor.Status(); s == ConnectionStatusConnected || s == ConnectionStatusReconnected {
 			// Reconnected, don't demote
 			log := d.election.getLogger()
 			log.Info("connection_reconnected_before_grace_period",
@@ -319,7 +335,10 @@ func (e *kvElection) verifyLeadershipAfterReconnect() {
 	// Resume heartbeat loop if it was stopped
 	// Note: Heartbeat loop should resume automatically, but we verify
 	// Update status to Connected after successful verification
-	if e.connectionMonitor != nil {
+	// A disconnect (or close) that arrived while the verification was running is
+	// newer than the reconnect being verified: leave its status alone, the
+	// grace timer it armed must still be able to demote.
+	if e.connectionMonitor != nil && e.connectionMonitor.Status() == ConnectionStatusReconnected {
 		e.connectionMonitor.SetStatus(ConnectionStatusConnected)
 		// Update connection status metric
 		if e.cfg.Metrics != nil {
